@@ -67,6 +67,8 @@ func (h *HandlerSet) HandleAnalyzeCode(ctx context.Context, request mcp.CallTool
 		CloneSimilarity: 0.8,
 		ConfigFile:      h.deps.ConfigPath(),
 	}
+	// analyses named in the request win over [dead_code] enabled of the configuration file
+	config.ExplicitSelection = len(analyses) > 0
 	if cfg := h.deps.Config(); cfg != nil {
 		if cfg.Output.MinComplexity > 0 {
 			config.MinComplexity = cfg.Output.MinComplexity
